@@ -1354,7 +1354,9 @@ func parseAddrHostUnion(token, o string, gatewayType uint8) (addr net.IP, host s
 		if addr == nil {
 			return addr, host, errors.New("gateway IP invalid")
 		}
-		if (addr.To4() == nil) == (gatewayType == IPSECGatewayIPv4) {
+		// IPv6 addresses must include ":", and IPv4 addresses cannot include ":"
+		// (an IPv4-mapped IPv6 address is an IPv6 address that has a To4 form).
+		if strings.Contains(token, ":") == (gatewayType == IPSECGatewayIPv4) {
 			return addr, host, errors.New("gateway IP family mismatch")
 		}
 	case IPSECGatewayHost:
